@@ -1,8 +1,9 @@
 import RsslVerif.Model.SlotsCompile
+import RsslVerif.Model.SlotsFront
 import RsslVerif.Driver.Util
 /-! Line-protocol front end of the C06 model. -/
 namespace RsslVerif.Driver.C06
-open RsslVerif.Gen.SlotTables RsslVerif.Model.Slots RsslVerif.Model.SlotsCompile RsslVerif.Driver
+open RsslVerif.Gen.SlotTables RsslVerif.Model.Slots RsslVerif.Model.SlotsCompile RsslVerif.Model.SlotsFront RsslVerif.Driver
 
 def parseParams (s : String) : Option Params :=
   match s.toList.map bit? with
@@ -51,28 +52,207 @@ def parsePipe (s : String) : Option Pipeline :=
   | [name, dflt, _, _] => (optNat? dflt).map fun d => { name := name, defaultGroup := d.getD 0 }
   | _ => none
 
-/-- `<name>=<decl>~<flags>`: flag `s` (static storage), `z` (unsized array) and `m` (two-dimensional array) make
-    the global one that `process_definition` leaves alone (storage class not Extern / after peeling the modifier and
-    ONE sized array layer the type is not an object); the other flags only change the spelling of the same
-    declaration. Returns (name, declaration, is unsized). -/
-def parseNamedDecl (s : String) : Option (String × Decl × Bool) :=
+/-! ### request entry -> what the source text says (an independent reading of the request format of
+    harness/src/c06/e2e.rs: `decl_attrs`, `own_anns`, `normalise`) -/
+
+/-- one `<name>=<decl>~<flags>` entry -/
+structure Entry where
+  name : String
+  /-- as written: `set` is the group this entry spells itself (how: see `how`) -/
+  decl : Decl
+  /-- a (attribute, default) | r (register space) | v (vk::binding) | o (attribute G + register space G+1) -/
+  how : Char := 'a'
+  langIndex : Option Nat := none
+  /-- further annotations after the first: `some (index, space)` a register, `none` a semantic -/
+  extras : List (Option (Option Nat × Option Nat)) := []
+  preGroup : Option Nat := none
+  bindless : Bool := false
+  joined : Bool := false
+  isStatic : Bool := false
+  isUnsized : Bool := false
+  dim2 : Bool := false
+  wrongClass : Bool := false
+  /-- `A<n>`: an ill-formed attribute in front of the others -/
+  badAttr : Option Nat := none
+  externKw : Bool := false
+  groupShared : Bool := false
+  /-- `q`: a `= StaticSampler {..}` initialiser on a declarator of a static-storage declaration -/
+  staticSs : Bool := false
+  /-- `E`: the first storage keyword is written twice -/
+  dupKw : Bool := false
+  deriving Repr
+
+def parseFlag (e : Entry) (f : String) : Option Entry :=
+  if f == "" then some e
+  else if f == "a" then some { e with how := 'a' }
+  else if f == "r" then some { e with how := 'r' }
+  else if f == "v" then some { e with how := 'v' }
+  else if f == "o" then some { e with how := 'o' }
+  else if f == "b" then some { e with bindless := true }
+  else if f == "n" then some e
+  else if f == "j" then some { e with joined := true }
+  else if f == "s" then some { e with isStatic := true }
+  else if f == "z" then some { e with isUnsized := true }
+  else if f == "m" then some { e with dim2 := true }
+  else if f == "k" then some { e with wrongClass := true }
+  else if f == "e" then some { e with externKw := true }
+  else if f == "E" then some { e with dupKw := true }
+  else if f == "G" then some { e with groupShared := true }
+  else if f == "q" then some { e with staticSs := true }
+  else if f == "Y" then some { e with extras := e.extras ++ [none] }
+  else if f.startsWith "i" then (f.drop 1).toString.toNat?.map fun n => { e with langIndex := some n }
+  else if f.startsWith "w" then (f.drop 1).toString.toNat?.map fun n => { e with preGroup := some n }
+  else if f.startsWith "A" then
+    match (f.drop 1).toString.toNat? with
+    | some n => if n < 12 then some { e with badAttr := some n } else none
+    | none => none
+  else if f.startsWith "R" then
+    match (f.drop 1).toString.splitOn "_" with
+    | [i, g] =>
+      match optNat? i, optNat? g with
+      | some i, some g => if i.isNone && g.isNone then none else some { e with extras := e.extras ++ [some (i, g)] }
+      | _, _ => none
+    | _ => none
+  else none
+
+def parseFlags : Entry → List String → Option Entry
+  | e, [] => some e
+  | e, f :: fs => match parseFlag e f with
+    | none => none
+    | some e' => parseFlags e' fs
+
+def parseEntry (s : String) : Option Entry :=
   match s.splitOn "=" with
   | [name, rest] =>
     match rest.splitOn "~" with
     | [decl, flags] =>
-      let fl := flags.splitOn "."
       match parseDecl decl with
       | none => none
-      | some d =>
-        let d' := match d with
-          | .global set ss kind len =>
-            if fl.contains "z" || fl.contains "m" then .global set ss none none
-            else if fl.contains "s" then .global set ss none len
-            else .global set ss kind len
-          | d => d
-        some (name, d', fl.contains "z")
+      | some d => parseFlags { name := name, decl := d } (flags.splitOn ".")
     | _ => none
   | _ => none
+
+def Entry.set (e : Entry) : Option Nat :=
+  match e.decl with
+  | .cbuffer s => s
+  | .global s _ _ _ => s
+  | .other => none
+
+/-- a cbuffer or a global of an object type (something a `register(..)` can be written on by the generator) -/
+def Entry.object (e : Entry) : Bool :=
+  match e.decl with
+  | .cbuffer _ => true
+  | .global _ _ (some _) _ => true
+  | _ => false
+
+/-- (object kind, static storage) of a declaration that can have several declarators -/
+def Entry.base? (e : Entry) : Option (ObjKind × Bool) :=
+  match e.decl with
+  | .global _ _ (some k) _ => some (k, e.isStatic)
+  | _ => none
+
+/-- the register class the generator writes an index with -/
+def Entry.regClass (e : Entry) : RegT :=
+  match e.decl with
+  | .cbuffer _ => .B
+  | .global _ _ (some k) _ => (registerType k).getD .T
+  | _ => .T
+
+/-- attributes in front of the declaration whose first declarator is `h`, in source order -/
+def badAttr : Nat → Attr
+  | 0 => .badCount "bind_group"
+  | 1 => .badCount "bind_group"
+  | 2 => .badCount "bindless"
+  | 3 => .unknown "nope"
+  | 4 => .badCount "binding"
+  | 5 => .badCount "binding"
+  | 6 => .unknown "nope"
+  | 7 => .unknown "other"
+  | 8 => .unknown "single"
+  | 9 => .notConstant ""
+  | 10 => .notConstant "WaveGetLaneCount"
+  | _ => .notConstant "4294967296"
+
+def declAttrs (h : Entry) : List Attr :=
+  (match h.badAttr with | some n => [badAttr n] | none => []) ++
+  (if h.bindless then [Attr.bindless] else []) ++
+  (match h.preGroup with | some g => [Attr.bindGroup g] | none => []) ++
+  (if h.how == 'v' && h.object && (h.set.isSome || h.langIndex.isSome) then [Attr.vkBinding (h.langIndex.getD 0) h.set]
+   else if h.how == 'r' && h.object then []
+   else match h.set with | some g => [Attr.bindGroup g] | none => [])
+
+def mkRegister (c : RegT) (wrong : Bool) (i g : Option Nat) : Annotation :=
+  let c' := if wrong then (if c == .T then RegT.U else RegT.T) else c
+  .register { slot := i.map fun i => (c', i), space := g }
+
+/-- annotations after the declarator `e`, in source order; `joined` = it is a further declarator (its own group
+    can only be a register space) -/
+def ownAnns (e : Entry) (joined : Bool) : List Annotation :=
+  let how := if joined then 'r' else e.how
+  let c := e.regClass
+  let first : List Annotation :=
+    if !e.object then []
+    else if how == 'r' then
+      (if e.set.isSome || e.langIndex.isSome then [mkRegister c e.wrongClass e.langIndex e.set] else [])
+    else if how == 'o' && e.set.isSome then [mkRegister c e.wrongClass e.langIndex (e.set.map (· + 1))]
+    else if how == 'v' && (e.set.isSome || e.langIndex.isSome) then []
+    else if e.langIndex.isSome then [mkRegister c e.wrongClass e.langIndex none] else []
+  first ++ e.extras.map fun x =>
+    match x with
+    | some (i, g) => mkRegister c false i g
+    | none => Annotation.semantic
+
+def Entry.declarator (e : Entry) (joined : Bool) : Declarator Shape :=
+  match e.decl with
+  | .global _ ss _ len =>
+    { name := e.name, annotations := ownAnns e joined, staticSampler := ss || (e.isStatic && e.staticSs),
+      shape := { len := len, peelable := !(e.isUnsized || e.dim2) } }
+  | _ => { name := e.name, annotations := [], staticSampler := false, shape := { len := none, peelable := true } }
+
+/-- the storage-class keywords in front of the type of the declaration whose first declarator is `h` -/
+def Entry.mods (h : Entry) : List StorageMod :=
+  let ms := (if h.isStatic then [if h.groupShared then StorageMod.groupShared else StorageMod.static] else []) ++
+    (if h.externKw then [StorageMod.extern] else [])
+  match h.dupKw, ms with
+  | true, m :: rest => m :: m :: rest
+  | _, ms => ms
+
+/-- entries in source order → root definitions; `cur` = the global-variable declaration being collected (its
+    attributes, base type, storage keywords, declarators so far, base key) -/
+def groupEntries : List Entry →
+    Option (List Attr × Option ObjKind × List StorageMod × List (Declarator Shape) × (ObjKind × Bool)) → List RootItem
+  | [], none => []
+  | [], some (as, b, ms, ds, _) => [.globals as b ms ds]
+  | e :: es, cur =>
+    let flush : List RootItem := match cur with
+      | some (as, b, ms, ds, _) => [.globals as b ms ds]
+      | none => []
+    match cur, e.joined, e.base? with
+    | some (as, b, ms, ds, key), true, some key' =>
+      if key == key' then groupEntries es (some (as, b, ms, ds ++ [e.declarator true], key))
+      else flush ++ groupEntries es (some (declAttrs e, some key'.1, e.mods, [e.declarator false], key'))
+    | _, _, some key' => flush ++ groupEntries es (some (declAttrs e, some key'.1, e.mods, [e.declarator false], key'))
+    | _, _, none =>
+      flush ++ (match e.decl with
+        | .other => [RootItem.other e.name]
+        | .cbuffer _ => [RootItem.cbuffer e.name (declAttrs e) (ownAnns e false)]
+        -- a global that is not an object (`static const int x`)
+        | .global _ _ _ _ => [RootItem.globals (declAttrs e) none [.static] [e.declarator false]]) ++ groupEntries es none
+
+def regLetter : RegT → String | .T => "t" | .U => "u" | .S => "s" | .B => "b"
+
+def showFrontErr : FrontErr → String
+  | .invalidRegisterType u x n => "err:decl:register-type-" ++ regLetter u ++ "-" ++ regLetter x ++ ":" ++ n
+  | .invalidRegisterAnnotation n => "err:decl:register:" ++ n
+  | .unexpectedRegisterAnnotation n => "err:decl:register-here:" ++ n
+  | .unexpectedSemantic n => "err:decl:semantic:" ++ n
+  | .staticSamplerUnexpectedBindingIndex n => "err:decl:static-sampler-index:" ++ n
+  | .unexpectedPackOffset n => "err:other:packoffset:" ++ n
+  | .staticSamplerUnexpectedStorageClass n => "err:decl:static-sampler-storage:" ++ n
+  | .attributeArgumentCount l => "err:decl:attribute-count:" ++ l
+  | .attributeUnknown n => "err:decl:attribute-unknown:" ++ n
+  | .attributeNotConstant w => "err:decl:attribute-not-constant:" ++ w
+  | .modifierConflict new _ => "err:decl:modifier-conflict:" ++ new
 
 def showMetaBinding (b : MetaBinding) : String :=
   b.name ++ "," ++ (match b.loc with | .index i => "i" ++ toString i | .inline o => "n" ++ toString o) ++ "," ++ toString b.count
@@ -91,14 +271,18 @@ def showErr : Err → String
 def handleCompile (tgt mode pipes decls : String) : String :=
   match parseTarget tgt, parseMode mode,
         sequenceOpt ((if pipes == "-" then [] else pipes.splitOn ";").map parsePipe),
-        sequenceOpt ((if decls.isEmpty then [] else decls.splitOn ";").map parseNamedDecl) with
-  | some (t, sba), some m, some ps, some nds =>
-    if isMetal t && nds.any (·.2.2) then "unsupported: unsized resource arrays are not implemented by the Metal exporter"
-    else
-      let ir := Module.fresh (nds.map (·.1)) (nds.map (·.2.1)) ps
-      match compile { target := t, supportBufferAddress := sba, mode := m } ir with
-      | .error e => showErr e
-      | .ok bs => "ok:" ++ " ## ".intercalate (bs.map fun b => "{" ++ " / ".intercalate (b.groups.map showGroup) ++ "}")
+        sequenceOpt ((if decls.isEmpty then [] else decls.splitOn ";").map parseEntry) with
+  | some (t, sba), some m, some ps, some es =>
+    -- the type checker first: every declarator gets its language-level binding (or the file is rejected)
+    match frontItems (groupEntries es none) with
+    | .error e => showFrontErr e
+    | .ok nds =>
+      if isMetal t && es.any (·.isUnsized) then "unsupported: unsized resource arrays are not implemented by the Metal exporter"
+      else
+        let ir := Module.fresh (nds.map (·.1)) (nds.map (·.2)) ps
+        match compile { target := t, supportBufferAddress := sba, mode := m } ir with
+        | .error e => showErr e
+        | .ok bs => "ok:" ++ " ## ".intercalate (bs.map fun b => "{" ++ " / ".intercalate (b.groups.map showGroup) ++ "}")
   | _, _, _, _ => "bad-request"
 
 def handle (op : String) (args : List String) : String :=
